@@ -143,6 +143,26 @@ func streamKeyToHash(r *Run) {
 		}
 		structured = append(structured, append(append([]byte{}, base...), 0), base[:L-1]) // one longer, one shorter
 	}
+	// a key buffer that the caller reuses: the hashes must depend on the CONTENT of the key, not on
+	// which slice it sits in
+	for _, L := range []int{8, 64, 255, 256, 257, 300, 1024, 5000} {
+		buf := make([]byte, L)
+		for i := range buf {
+			buf[i] = byte(r.Rng.Intn(256))
+		}
+		h1, c1 := z.KeyToHash(buf)
+		other := make([]byte, L)
+		for i := range other {
+			other[i] = byte(r.Rng.Intn(256))
+		}
+		copy(buf, other)
+		h2, c2 := z.KeyToHash(buf)
+		h3, c3 := z.KeyToHash(append([]byte{}, other...))
+		r.Count("reused_buffer")
+		if h2 != h3 || c2 != c3 {
+			r.Fail("C01", fmt.Sprintf("z.KeyToHash of a reused %d-byte key buffer: after refilling it with another key it returns (%d,%d), a fresh slice with the same content gives (%d,%d) (the previous content hashed to (%d,%d)): a Get with the refilled buffer is served the other key's value", L, h2, c2, h3, c3, h1, c1), fmt.Sprintf("reused []byte buffer of length %d", L))
+		}
+	}
 	seenB := map[[2]uint64]string{}
 	for _, b := range structured {
 		h, c := z.KeyToHash(b)
